@@ -2,6 +2,7 @@ package main
 
 import (
 	"go/ast"
+	"go/token"
 	"go/types"
 )
 
@@ -102,6 +103,87 @@ func c10Lock(r *Run) {
 		r.fail("runtime.VM has only %d map fields; the registries moved", nmaps)
 	}
 	la.run("C10-LOCK", "C10-ATOMIC", ctor)
+
+	// read-modify-write of an atomic field (a copy-on-write snapshot: Load, derive, Store): two
+	// concurrent writers both start from the same snapshot and one update is lost unless the sequence
+	// runs under the write lock or retries with CompareAndSwap
+	{
+		r.curRule = "C10-ATOMIC"
+		info := pkg.TypesInfo
+		atomicField := func(e ast.Expr) *types.Var {
+			se, ok := ast.Unparen(e).(*ast.SelectorExpr)
+			if !ok {
+				return nil
+			}
+			sel, ok := info.Selections[se]
+			if !ok {
+				return nil
+			}
+			v, ok := sel.Obj().(*types.Var)
+			if !ok || !v.IsField() {
+				return nil
+			}
+			if nt := namedOf(v.Type()); nt != nil && nt.Obj().Pkg() != nil && nt.Obj().Pkg().Path() == "sync/atomic" {
+				for i := 0; i < st.NumFields(); i++ {
+					if st.Field(i) == v {
+						return v
+					}
+				}
+			}
+			return nil
+		}
+		for _, fd := range funcDecls(pkg) {
+			if ctor[fd.Name.Name] {
+				continue
+			}
+			loads := map[*types.Var]bool{}
+			cas := map[*types.Var]bool{}
+			stores := map[*types.Var]token.Pos{}
+			ast.Inspect(fd.Body, func(n ast.Node) bool {
+				c, ok := n.(*ast.CallExpr)
+				if !ok {
+					return true
+				}
+				se, ok := ast.Unparen(c.Fun).(*ast.SelectorExpr)
+				if !ok {
+					return true
+				}
+				f := atomicField(se.X)
+				if f == nil {
+					return true
+				}
+				switch se.Sel.Name {
+				case "Load":
+					loads[f] = true
+				case "Store", "Swap":
+					stores[f] = c.Pos()
+				case "CompareAndSwap":
+					cas[f] = true
+				}
+				return true
+			})
+			for f, pos := range stores {
+				if !loads[f] {
+					continue
+				}
+				lvl := 0
+				for _, cs := range la.calls[fd] {
+					if cs.pos == pos {
+						lvl = cs.lvl
+					}
+				}
+				key := funcKey(pkg, fd) + "#load-then-store:" + f.Name()
+				switch {
+				case cas[f]:
+					r.ok(key, pos, "the snapshot in "+f.Name()+" is replaced with CompareAndSwap")
+				case lvl >= 2:
+					r.ok(key, pos, "the snapshot in "+f.Name()+" is read and replaced under the write lock")
+				default:
+					r.bad(key, pos, "reads the snapshot in "+f.Name()+", derives a new one and stores it with no write lock and no CompareAndSwap: two concurrent registrations both start from the same snapshot and one of them is lost (and both pass the duplicate check)")
+				}
+			}
+		}
+	}
 
 	// the class-path manager guards its namespace graph with its own mutex
 	c10OwnedGraph(r)
